@@ -35,7 +35,7 @@ N5 = 1024
 N6 = 156
 N7 = 1044
 PLAN = {
-    'quick': dict(cases=N_SMALL + N5 + N6 + 160 + 24, budget_s=90, case_timeout=120, min_cases=N_SMALL + N5),
+    'quick': dict(cases=N_SMALL + N5 + N6 + 160 + 24, budget_s=150, case_timeout=120, min_cases=N_SMALL + N5),
     'thorough': dict(cases=N_SMALL + N5 + N6 + N7 + 4000 + 400, budget_s=900, case_timeout=600,
                      min_cases=N_SMALL + N5 + N6),
 }
